@@ -502,7 +502,7 @@ class ConcEnv(BaseEnv):
                     float(np.max(np.abs(fb))) if np.all(np.isfinite(fb)) else 1.0)
         with np.errstate(invalid='ignore'):
             err = np.abs(fa - fb)
-        bad = ~(err <= rtol * scale + self.atol)
+        bad = ~(err <= rtol * scale + min(self.atol, rtol))
         if np.any(bad):
             i = int(np.argmax(np.where(np.isnan(err), np.inf, err)))
             self._fail(name, 'max |a-b| = %r at flat index %d (a=%r, b=%r, scale=%r)' % (
